@@ -11,7 +11,7 @@ Line protocol for C11 (tables in the forest wire format `id:parent:x:y:z[:L]`, r
 * `c11.fluff <num:den|-> <nlargest|-> | <table>` → topo
 * `c11.stitch <F|L> <NONE|ALL|LEAFS|L=…> <maxd2|inf> | <skel> ;; <skel> …` with
   `<skel> = <table> # cid:node,… # tag:node+node,…` →
-  `mix=<k>|nodes=<id:parent:x:y:z …>|conns=cid:node,…|tags=tag:n+n,…|ascoded=tag:n+n,…|added=…`
+  `mix=<k>|nodes=<id:parent:x:y:z …>|conns=cid:node,…|tags=tag:n+n,…|added=…`
 -/
 namespace Navis.Drv.C11
 open Navis.Forest Navis.Heal Navis.Proto Navis.Drv.Forest
@@ -134,7 +134,7 @@ def run (cmd rest : String) : Option String :=
           let o : Opts := { method := ← parseMethod m, maxD2 := maxD2 }
           pure (heal c.nodes o, healAdded c.nodes o)
       pure (s!"mix={mIx}|nodes={showRows nodes}|conns={showConns c.conns}|tags={showTags c.tags}" ++
-        s!"|ascoded={showTags (tagsAsCoded mIx l)}|added={showAdded added}")
+        s!"|added={showAdded added}")
     | _ => none
   | _ => none
 
